@@ -108,6 +108,8 @@ fn bad_utf8_strategy() -> BoxedStrategy<FaultCase> {
                 Ty::Option(_) => bytes.push(1),
                 Ty::Vec(_) => vmodel::refcodec::var_i32(1, &mut bytes),
                 Ty::Tuple(_) => bytes.extend_from_slice(&[0, 7]),
+                // a zone is written as the type tag 1 followed by its name
+                Ty::Tz => bytes.push(1),
                 _ => {}
             }
             vmodel::refcodec::var_i32(body.len() as i32, &mut bytes);
